@@ -266,7 +266,7 @@ class RefServer:
             if not c.args:
                 lines = [b"STAT pid 4242", b"STAT uptime 12", b"STAT version " + self.version,
                          b"STAT curr_items %d" % len(self.store), b"STAT rusage_user 0.120000",
-                         b"STAT hash_is_expanding 0", b"STAT threads 4"]
+                         b"STAT hash_is_expanding 0", b"STAT threads 4"] + list(getattr(self, "extra_stats", ()))
             elif c.args[0] == b"settings":
                 lines = [b"STAT maxbytes 67108864", b"STAT inter ", b"STAT growth_factor 1.25",
                          b"STAT stat_key_prefix :", b"STAT umask 700", b"STAT detail_enabled no",
